@@ -12,7 +12,8 @@ def sh(cmd, cwd=None, timeout=3000):
 def main():
     d = os.path.abspath(sys.argv[1]); checks = sys.argv[2:]
     meta = json.load(open(os.path.join(d, 'meta.json')))
-    prop = meta['property']; name = '%s_%s' % (prop, os.path.basename(d))
+    prop = meta['property']; base = os.path.basename(d)
+    name = base if base.startswith(prop) else '%s_%s' % (prop, base)
     if not checks: checks = [prop]
     wt = '/tmp/seedwt_%s' % name
     sh('git -C /repo worktree remove --force %s' % wt); shutil.rmtree(wt, ignore_errors=True)
@@ -61,8 +62,11 @@ def main():
 def finish(res, d, wt, name):
     out = os.path.join(V, 'seeded', name); os.makedirs(out, exist_ok=True)
     for f in ('patch.diff', 'demo.sh', 'demo.rs'):
-        if os.path.exists(os.path.join(d, f)): shutil.copy(os.path.join(d, f), os.path.join(out, f))
-    meta = json.load(open(os.path.join(d, 'meta.json'))); meta['verification'] = res
+        if os.path.exists(os.path.join(d, f)) and os.path.abspath(d) != os.path.abspath(out): shutil.copy(os.path.join(d, f), os.path.join(out, f))
+    meta = json.load(open(os.path.join(d, 'meta.json')))
+    prev = (meta.get('verification') or {}).get('checks', {})
+    for c, r in prev.items(): res.setdefault('checks', {}).setdefault(c, r)      # keep the results of checks not re-run now
+    meta['verification'] = res
     json.dump(meta, open(os.path.join(out, 'meta.json'), 'w'), indent=1)
     print(json.dumps({k: res.get(k) for k in ('name', 'confirmed', 'tests_with_change', 'demo_with_change', 'demo_without_change', 'error')}))
     for c, r in res.get('checks', {}).items(): print('  ', c, 'exit', r['exit'], r['violation_line'], (r.get('replay') or {}).get('relation', ''))
